@@ -366,7 +366,7 @@ void add_type(Node *node) {
     return;
   case ND_EXCH:
     if (node->lhs->ty->kind != TY_PTR)
-      error_tok(node->cas_addr->tok, "pointer expected");
+      error_tok(node->lhs->tok, "pointer expected");
     node->ty = node->lhs->ty->base;
     return;
   }
